@@ -58,6 +58,45 @@ type mMsg struct {
 	AL     [][]int `json:"al,omitempty"`     // access list: [target, keys…]
 	DNonce int     `json:"dnonce,omitempty"` // 0 = the sender's next nonce, otherwise next nonce + DNonce (wrong)
 	Data   int     `json:"data,omitempty"`   // calls: number of (non-zero) calldata bytes
+	// tx type and prices (unibi per gas; the base fee is 1): Typ 0 legacy (access-list when AL is given),
+	// 1 access-list, 2 dynamic-fee.  Cap = gas price / maxFeePerGas: 0 = the base fee, <0 = below the base
+	// fee (0 wei).  Tip = maxPriorityFeePerGas (dynamic-fee only; may exceed Cap).
+	Typ int `json:"typ,omitempty"`
+	Cap int `json:"cap,omitempty"`
+	Tip int `json:"tip,omitempty"`
+	// Place = [which, delta]: before the message the sender's balance is SET (both sides) to
+	// gas*effectivePrice+value (which=1) or gas*Cap+value (which=2), plus delta unibi
+	Place []int `json:"place,omitempty"`
+}
+
+func (m mMsg) capUnibi() int64 {
+	switch {
+	case m.Cap == 0:
+		return 1
+	case m.Cap < 0:
+		return 0
+	}
+	return int64(m.Cap)
+}
+
+// tip as go-ethereum sees it: a legacy / access-list tx has tip = cap = gas price
+func (m mMsg) tipUnibi() int64 {
+	if m.Typ != 2 {
+		return m.capUnibi()
+	}
+	return int64(m.Tip)
+}
+
+// Nibiru's effective price max(base, min(tip+base, cap)) in unibi (base fee = 1)
+func (m mMsg) effUnibi() int64 {
+	e := m.tipUnibi() + 1
+	if c := m.capUnibi(); c < e {
+		e = c
+	}
+	if e < 1 {
+		e = 1
+	}
+	return e
 }
 
 type mCase struct {
@@ -72,7 +111,10 @@ type mHdr struct {
 	From    int    `json:"from"` // row index of the sender
 	Nonce   uint64 `json:"nonce"`
 	Gas     uint64 `json:"gas"`
-	Price   string `json:"price"` // wei per gas
+	Base    string `json:"base"`  // wei per gas: base fee, tip (legacy: the gas price), fee cap
+	Tip     string `json:"tip"`
+	Cap     string `json:"cap"`
+	Placed  string `json:"placed"` // sender balance (wei) set before the message, "" = untouched
 	Value   string `json:"value"` // wei
 	Create  bool   `json:"create"`
 	NZ      int    `json:"nz"`
@@ -332,12 +374,42 @@ func runHistory(deps *evmtest.TestDeps, u universe, c mCase) mResult {
 			nonce = next + 1
 		}
 		to, data, al := w.txData(c, m)
+		capWei := new(big.Int).Mul(big.NewInt(m.capUnibi()), baseFee) // base fee = 1 unibi per gas
+		tipWei := new(big.Int).Mul(big.NewInt(m.tipUnibi()), baseFee)
 		var inner gethcore.TxData
-		if len(al) > 0 {
-			inner = &gethcore.AccessListTx{ChainID: chainID, Nonce: uint64(nonce), To: to, Data: data, Gas: m.Gas, GasPrice: baseFee,
+		switch {
+		case m.Typ == 2:
+			inner = &gethcore.DynamicFeeTx{ChainID: chainID, Nonce: uint64(nonce), To: to, Data: data, Gas: m.Gas, GasFeeCap: capWei, GasTipCap: tipWei,
 				Value: unibiWei(m.Value), AccessList: al}
-		} else {
-			inner = &gethcore.LegacyTx{Nonce: uint64(nonce), To: to, Data: data, Gas: m.Gas, GasPrice: baseFee, Value: unibiWei(m.Value)}
+		case m.Typ == 1 || len(al) > 0:
+			inner = &gethcore.AccessListTx{ChainID: chainID, Nonce: uint64(nonce), To: to, Data: data, Gas: m.Gas, GasPrice: capWei,
+				Value: unibiWei(m.Value), AccessList: al}
+		default:
+			inner = &gethcore.LegacyTx{Nonce: uint64(nonce), To: to, Data: data, Gas: m.Gas, GasPrice: capWei, Value: unibiWei(m.Value)}
+		}
+		// balance placement around an admission limit: the same SET on both sides, outside any message
+		placed := ""
+		if len(m.Place) == 2 {
+			price := m.effUnibi()
+			if m.Place[0] == 2 {
+				price = m.capUnibi()
+			}
+			target := int64(m.Gas)*price + int64(m.Value) + int64(m.Place[1])
+			if target < 1 {
+				target = 1
+			}
+			tw := new(big.Int).Mul(big.NewInt(target), big.NewInt(wei))
+			if err := deps.EvmKeeper.SetAccBalance(deps.Ctx, s.EthAddr, big.NewInt(target)); err != nil {
+				panic(err)
+			}
+			db := g.open()
+			db.SetBalance(s.EthAddr, tw)
+			root, err := db.Commit(true)
+			if err != nil {
+				panic(err)
+			}
+			g.root = root
+			placed = tw.String()
 		}
 		txMsg := new(evm.MsgEthereumTx)
 		if err := txMsg.FromEthereumTx(gethcore.NewTx(inner)); err != nil {
@@ -360,7 +432,7 @@ func runHistory(deps *evmtest.TestDeps, u universe, c mCase) mResult {
 				nz++
 			}
 		}
-		res.Hdrs = append(res.Hdrs, mHdr{From: w.idx(s.EthAddr), Nonce: uint64(nonce), Gas: m.Gas, Price: baseFee.String(),
+		res.Hdrs = append(res.Hdrs, mHdr{From: w.idx(s.EthAddr), Nonce: uint64(nonce), Gas: m.Gas, Base: baseFee.String(), Tip: tipWei.String(), Cap: capWei.String(), Placed: placed,
 			Value: unibiWei(m.Value).String(), Create: to == nil, NZ: nz, Z: z, ALAddrs: len(al), ALKeys: al.StorageKeys()})
 
 		// ---- go-ethereum: core.ApplyMessage on core/state, same block context as Nibiru's
@@ -537,6 +609,24 @@ func genHistory(r *Rng) mCase {
 			}
 			m.AL = append(m.AL, el)
 		}
+		// tx type and prices: legacy / access-list / dynamic-fee, gas price or fee cap at, above, far above,
+		// below the base fee; tip none, small, = cap, above the cap, far above the base fee
+		switch r.Pick(5, 2, 6) {
+		case 1:
+			m.Typ = 1
+		case 2:
+			m.Typ = 2
+		}
+		if m.Typ == 2 {
+			m.Cap = []int{0, 2, 3, 10, 10, -1}[r.Pick(3, 3, 2, 3, 3, 1)]
+			c := int(m.capUnibi())
+			m.Tip = []int{0, 1, c, c + 1, 20}[r.Pick(5, 4, 2, 1, 1)]
+		} else if r.Chance(1, 3) {
+			m.Cap = []int{2, 10, -1}[r.Pick(3, 2, 1)]
+		}
+		if m.capUnibi() >= 10 && m.Gas > 300_000 {
+			m.Gas = 300_000
+		}
 		// the classes of messages go-ethereum rejects before execution
 		switch r.Pick(15, 4, 2, 2) {
 		case 1: // gas limit below the intrinsic gas
@@ -556,6 +646,18 @@ func genHistory(r *Rng) mCase {
 			} else {
 				m.Value = 6_000_000
 			}
+		}
+		// the sender's balance placed just below / at / above one of the two admission limits
+		// (gas*effectivePrice + value, gas*feeCap + value); mostly the poor sender
+		if r.Chance(2, 5) {
+			m.From = r.Pick(1, 3)
+			if m.Gas > 300_000 {
+				m.Gas = 100_000
+			}
+			if m.Value > 2 {
+				m.Value = 2
+			}
+			m.Place = []int{1 + r.Intn(2), []int{-1, 0, 1, -1000, 1000}[r.Pick(4, 4, 3, 1, 1)]}
 		}
 		c.Msgs = append(c.Msgs, m)
 	}
@@ -582,6 +684,23 @@ func histOpeners() []mCase {
 			{From: 0, To: -1, Body: 0, Gas: 300_000, Value: 1},
 			{From: 1, To: 4, Gas: 21_000, Value: 2, AL: [][]int{{0, 1}}},
 			{From: 1, To: 0, Gas: 140_000, Value: 1},
+		}},
+		// the admission decision: the three tx types with the sender balance placed around both limits
+		{Bodies: [][]pStmt{counter}, Funds: [2]int{5_000_000, 150_000}, Msgs: []mMsg{
+			{From: 1, To: 4, Gas: 21_000, Value: 5, Typ: 2, Cap: 10, Tip: 0, Place: []int{2, -1}}, // between the limits
+			{From: 1, To: 4, Gas: 21_000, Value: 5, Typ: 2, Cap: 10, Tip: 0, Place: []int{2, 0}},
+			{From: 1, To: 4, Gas: 21_000, Value: 5, Typ: 2, Cap: 10, Tip: 2, Place: []int{1, 0}},
+			{From: 1, To: 4, Gas: 21_000, Value: 5, Typ: 2, Cap: 10, Tip: 2, Place: []int{1, -1}},
+			{From: 1, To: 0, Gas: 300_000, Typ: 2, Cap: 3, Tip: 20, Place: []int{2, 0}},
+			{From: 0, To: 0, Gas: 300_000, Typ: 2, Cap: 2, Tip: 3},  // tip above the fee cap
+			{From: 0, To: 0, Gas: 300_000, Typ: 2, Cap: -1, Tip: 0}, // fee cap below the base fee
+		}},
+		{Bodies: [][]pStmt{counter}, Funds: [2]int{5_000_000, 150_000}, Msgs: []mMsg{
+			{From: 1, To: 4, Gas: 21_000, Value: 1, Cap: 2, Place: []int{2, -1}},
+			{From: 1, To: 4, Gas: 21_000, Value: 1, Cap: 2, Place: []int{2, 0}},
+			{From: 1, To: 0, Gas: 300_000, Typ: 1, Cap: 10, AL: [][]int{{0, 0}}, Place: []int{1, 1}},
+			{From: 1, To: 4, Gas: 30_000, Value: 2, Cap: -1},
+			{From: 0, To: 0, Gas: 300_000, Typ: 2, Cap: 10, Tip: 1},
 		}},
 	}
 }
